@@ -967,7 +967,9 @@ func TestVerifC05(t *testing.T) {
 		"2 and 3 threads presenting the same value (plus one with another value) through the real echo routes; every Get/Set/Delete that " +
 		"reaches the bottom store is one scheduling point and sched.Explore enumerates every interleaving (a case = one schedule, distinct by " +
 		"its choice vector); sequential replays at once and at every boundary instant (+-1 ms) of the secret's time-to-live and of the " +
-		"presentation's / proof's acceptance window under a frozen virtual clock; failed redemption attempts followed by a correct one")
+		"presentation's / proof's acceptance window under a frozen virtual clock; failed redemption attempts followed by a correct one; " +
+		"environment answers: every single store operation (two in the thorough tier) of the sequential scenarios and of the complete " +
+		"2-request schedule spaces is answered with a generic store error, with and - for writes - without the operation taking effect")
 	r.Assume("the session store's back-end is the in-memory one (go-cache); Redis / memcached atomicity is not explored")
 	r.Assume("between two store operations a handler touches no state shared with another request (checked by the free-running -race part when run)")
 	r.Assume("jwx's built-in clock (dpop.Parse) is the wall clock: it only bounds iat from below and every proof is minted at t0 <= wall clock")
